@@ -8,6 +8,7 @@ import (
 	"path/filepath"
 	"runtime"
 	"sort"
+	"strconv"
 	"strings"
 	"sync"
 	"time"
@@ -142,7 +143,7 @@ func (rc *RunCtx) finish() int {
 			continue
 		}
 		reported++
-		if reported <= 25 {
+		if reported <= maxShow() {
 			p := filepath.Join(verifDir, "replay", fmt.Sprintf("%s-%d.json", rc.ID, reported))
 			b, _ := json.MarshalIndent(map[string]any{"property": rc.ID, "clause": v.Clause, "sig": v.Sig,
 				"human": v.Human, "record": v.Replay}, "", " ")
@@ -168,8 +169,8 @@ func (rc *RunCtx) finish() int {
 			fmt.Printf("  unexplained %-32s %d\n", k, byClause[k])
 		}
 	}
-	if reported > 25 {
-		fmt.Printf("  (%d further violations of %s not listed)\n", reported-25, rc.ID)
+	if reported > maxShow() {
+		fmt.Printf("  (%d further violations of %s not listed)\n", reported-maxShow(), rc.ID)
 	}
 	keys := make([]string, 0, len(kf))
 	for k := range kf {
@@ -377,4 +378,25 @@ func pathText(p wire.Path) (s string) {
 		return "<invalid: " + err.Error() + ">"
 	}
 	return a.String()
+}
+
+// mkdirLink creates a shard directory with the specification linked in.
+func mkdirLink(base, dir string) error {
+	if err := os.MkdirAll(dir, 0o755); err != nil {
+		return err
+	}
+	return tlc.LinkSpec(base, dir)
+}
+
+func tlcRun(dir, module string, workers, heapMB int, timeout time.Duration) (*tlc.Result, error) {
+	return tlc.Run(dir, module, cfgText(nil, nil), workers, heapMB, timeout)
+}
+
+func maxShow() int {
+	if s := os.Getenv("VERIF_MAXSHOW"); s != "" {
+		if n, err := strconv.Atoi(s); err == nil {
+			return n
+		}
+	}
+	return 25
 }
